@@ -9,5 +9,6 @@ INVARIANT ReadsBounded
 INVARIANT CountIsCursor
 INVARIANT WellFormedScenario
 INVARIANT ConsistentBalances
+INVARIANT CursorInv
 INVARIANT Emit
 CHECK_DEADLOCK FALSE
